@@ -168,6 +168,7 @@ type HSParams struct {
 	ServerTime        int32
 	PadSeed           uint64
 	ExtraFingerprints []int64 // offered before the real one
+	FingerprintsAfter []int64 // offered after the real one
 }
 
 // Fault is the single inconsistency injected into an otherwise conformant key exchange (C07).
@@ -561,7 +562,7 @@ func (c *Conn) plain(f []byte) error {
 		if flt.at("resPQ", "nonce") {
 			nonce = flt.corrupt(nonce, sn)
 		}
-		fps := append(append([]int64{}, c.hsp.ExtraFingerprints...), c.S.Key.Fingerprint())
+		fps := append(append(append([]int64{}, c.hsp.ExtraFingerprints...), c.S.Key.Fingerprint()), c.hsp.FingerprintsAfter...)
 		if flt.at("resPQ", "fingerprints") {
 			real := c.S.Key.Fingerprint()
 			switch flt.Kind {
